@@ -15,7 +15,7 @@
    batch can be scheduled "dependent first"; the dependent is then stale until the next change.
    [no_late] is exactly the absence of that situation; [C05_late_binding_goes_stale] is the witness. *)
 From Coq Require Import List Arith Bool.
-From AM Require Import Rust.Ast Gen.Deps Gen.HotReloading Proofs.Dfs Proofs.Pass Tie.Graph Tie.Answers Tie.Records.
+From AM Require Import Rust.Ast Gen.Deps Gen.HotReloading Proofs.Dfs Proofs.Pass Tie.Graph Tie.Answers Tie.Records Gen.Paths Tie.Paths.
 Import ListNotations.
 
 (* L1 *)
@@ -64,3 +64,9 @@ Qed.
 Theorem C05_code_pass_order_is_one_reversed_post_order :
   topo_wf DepsGraph_topological_sort_from = true /\ into_iter_reverses TopologicalSort_into_iter = true.
 Proof. exact pass_order_is_one_reversed_post_order. Qed.
+
+(* a changed entry the graph knows always reaches the next pass, and the pass reloads every asset of
+   the order it computed from the changed set (src/hot_reloading/paths.rs) *)
+Theorem C05_code_events_reach_the_pass :
+  run_update_wf run_update = true /\ handle_events_wf HotReloadingData_handle_events = true.
+Proof. exact (conj (proj1 paths_as_modelled) (proj1 (proj2 paths_as_modelled))). Qed.
